@@ -119,6 +119,7 @@ func runGated(sl *SchedLine) History {
 	var a AState
 	_ = json.Unmarshal(sl.Init, &a)
 	o := Build(a)
+	o.concurrent = true
 	G := len(sl.Prog)
 	h := History{Init: sl.Init, Hist: make([][]HEvent, G), Flags: []string{}, Sched: sl.Sched, Mode: "gated"}
 	ctl := make(chan parkMsg)
@@ -437,6 +438,7 @@ func cmdStress(args []string) {
 		init = init.Canon()
 		ij, _ := json.Marshal(init)
 		o := Build(init)
+		o.concurrent = true
 		G := 2 + rng.Intn(*maxG-1)
 		progs := make([][]Call, G)
 		for g := range progs {
@@ -581,6 +583,7 @@ func watchRun(init AState, rec *WatchRec, nSamp int) int {
 	rec.Rets, rec.Seen, rec.Flags = nil, nil, []string{}
 	{
 		o := Build(init)
+		o.concurrent = true
 		var phase int32 = -1
 		var stop, started int32
 		seen := make([][][maxLen + 1]bool, nSamp)
